@@ -75,7 +75,7 @@ static void c19_cb(const volatile void *addr, unsigned size, int kind, int order
 #define MAXNOT 16
 typedef struct { int phase, op, arg, blocking; } sop_t;
 typedef struct round_s round_t;
-typedef struct { round_t *r; int idx, nops, has_blocking; sop_t ops[MAXOPS]; uint64_t rng; pthread_t th; } helper_t;
+typedef struct { round_t *r; int idx, nops; sop_t ops[MAXOPS]; uint64_t rng; pthread_t th; } helper_t;
 struct round_s {
 	int k, kind, subm, hold, nhelpers; unsigned long flags;
 	dispatch_block_t db; dispatch_block_private_data_t dbpd; dispatch_queue_t q, nq; dispatch_group_t ug;
@@ -200,12 +200,23 @@ static void make_block(round_t *r) {
 }
 static void add_op(round_t *r, int hi, int phase, int op, int arg, int blocking) {
 	helper_t *h = &r->h[hi]; if (h->nops >= MAXOPS) return;
-	// the orchestrator waits for the non-blocking operations of a phase; whatever follows a possibly blocking
-	// operation in the same helper's script cannot be waited for
-	if (h->has_blocking) blocking = 1;
-	if (blocking) h->has_blocking = 1;
 	h->ops[h->nops++] = (sop_t){ phase, op, arg, blocking };
-	if (phase >= 0 && !blocking) atomic_fetch_add(&r->pend[phase], 1);
+}
+// a helper runs its script in order: sort it by phase (racing operations first); the orchestrator waits for the
+// non-blocking operations of a phase, and whatever follows a possibly blocking operation in the same script cannot
+// be waited for
+static void finish_scripts(round_t *r) {
+	for (int i = 0; i < r->nhelpers; i++) {
+		helper_t *h = &r->h[i];
+		for (int a = 1; a < h->nops; a++) { sop_t x = h->ops[a]; int b = a - 1;
+			while (b >= 0 && h->ops[b].phase > x.phase) { h->ops[b + 1] = h->ops[b]; b--; } h->ops[b + 1] = x; }
+		int blk = 0;
+		for (int a = 0; a < h->nops; a++) {
+			if (blk) h->ops[a].blocking = 1;
+			if (h->ops[a].blocking) blk = 1;
+			if (h->ops[a].phase >= 0 && !h->ops[a].blocking) atomic_fetch_add(&r->pend[h->ops[a].phase], 1);
+		}
+	}
 }
 static void print_round(round_t *r, int completed_expected, int stuck) {
 	int nn = atomic_load(&r->nnotif); if (nn > MAXNOT) nn = MAXNOT;
@@ -252,6 +263,7 @@ static void round_single(round_t *r) {
 	}
 	if (r->subm == S_SYNC || r->subm == S_SYNC_SUSPENDED) add_op(r, 0, 0, OP_SYNC, 0, 1);
 	if (r->subm == S_DIRECT) add_op(r, 0, 0, OP_DIRECT, 0, 1);
+	finish_scripts(r);
 	// a suspended queue already holds the submitted block during phase 0 ("submitted, not started")
 	if (suspended) dispatch_suspend(r->q);
 	if (r->subm == S_ASYNC_SUSPENDED) do_async(r, r->q, 0);
@@ -413,6 +425,7 @@ int main(int argc, char **argv) {
 		r->kind = c < 11 ? 0 : c < 14 ? 1 : c < 16 ? 2 : 3;
 		if (r->kind == 0) round_single(r); else if (r->kind == 1) round_multi(r); else if (r->kind == 2) round_perform(r);
 		else round_lostcancel(r);
+		if (getenv("C19_TIMING")) { struct timespec ts; clock_gettime(CLOCK_MONOTONIC, &ts); fprintf(stderr, "T %d kind=%d subm=%d hold=%d %ld.%03ld\n", k, r->kind, r->subm, r->hold, (long)ts.tv_sec, ts.tv_nsec / 1000000); }
 		// rounds are leaked on purpose: late worker-thread accesses stay valid and addresses are never reused
 	}
 	usleep(2000);
